@@ -30,6 +30,23 @@ CHECKS = {
         technique="Lean 4 proof over hand-written query model + structural capture correspondence + float cross-backend check",
         design="6/C01",
     ),
+    "C02": dict(
+        text=("Theorems over the query algebra of C01: the statistics a result row must hold are invariant under ANY "
+              "permutation of the data rows (hence any re-chunking) and under any change of columns the request does not "
+              "name (isStats_perm, isStats_map); pipelines_agree: running any of the three pipelines (Narwhals, Ibis "
+              "native, Ibis fallback) on the data and any of them on a permuted copy with other unrelated columns gives, "
+              "for every variant, the same count, means, variances and covariances; result_keys: the result keys are the "
+              "distinct variant values, each once, for every pipeline and row order. Tie: C01's structural tie "
+              "(re-checked) + cross-backend float runs of the real Experiment.analyze / solve_power: 5 input kinds x row "
+              "permutation x Arrow / Polars chunkings (incl. an empty chunk) x unrelated columns (string, all-null, "
+              "numeric, reordered), every field compared with the reference run, keys compared as Python values and types; "
+              "resampling metrics compared exactly between inputs with the same row order."),
+        note=NOTE_COMMON + "Engines, float noise, physical chunk layout and lazy-vs-eager execution have no counterpart "
+             "in the exact model: that part is the cross-backend correspondence (backend independence is partial in this "
+             "sense). SQLite returns booleans as 0/1, so Ibis-SQLite with bool ids is skipped.",
+        technique="Lean 4 proof over hand-written query model + cross-backend float correspondence",
+        design="6/C02",
+    ),
     "C03": dict(
         text=("Model/Experiment.lean lists the materialisations of Experiment.analyze / solve_power as a trace of events. "
               "Theorems for ANY number of metrics, columns, variants and pairs: an experiment of aggregated metrics has "
